@@ -36,6 +36,7 @@ func StableMapIteration[K comparable, V any, O cmp.Ordered](m map[K]V, comparabl
 	go func() {
 		for _, k := range keys {
 			v := m[k]
+			verifIterYield()
 			ch <- Elem[K, V]{k, v}
 		}
 		close(ch)
